@@ -1020,7 +1020,7 @@ func runCase(id int, c caseCfg, cv *vh.Cases, sum *vh.Summary, stream string) {
 	}
 	b := newBuilt(d)
 	heap1, root1 := b.heapTerm(), b.rootT
-	cj := map[string]interface{}{"desc": descJSON(d), "chk": c.chk, "raw": c.raw, "canonical": c.canon, "seed_index": id, "stream": stream}
+	cj := map[string]interface{}{"desc": descJSON(d), "chk": c.chk, "raw": c.raw, "canonical": c.canon, "seed_index": id, "stream": stream, "struct_to_array": id%3 == 1, "optimum_size": id%5 == 2, "nil_to_zero_len": id%7 == 3}
 
 	// independent facts about the graph
 	leafKinds := map[int]bool{}
@@ -1090,7 +1090,7 @@ func runCase(id int, c caseCfg, cv *vh.Cases, sum *vh.Summary, stream string) {
 	var res [3]int
 	for fi, f := range vh.Formats {
 		b.fill(d)
-		h := vh.NewHandle(f, vh.Opts{"CheckCircularRef": c.chk, "Raw": c.raw, "Canonical": c.canon})
+		h := vh.NewHandle(f, vh.Opts{"CheckCircularRef": c.chk, "Raw": c.raw, "Canonical": c.canon, "StructToArray": id%3 == 1, "OptimumSize": id%5 == 2, "NilCollectionToZeroLength": id%7 == 3})
 		var out []byte
 		enc := codec.NewEncoderBytes(&out, h)
 		var r [3]int
